@@ -1,6 +1,6 @@
 (* C01 -- the evaluator model against the first-order Spec: the results of [eval] are a cylinder cover of the
    assignment space.  Completeness holds for every condition; soundness of a result of polarity [pol] holds when no
-   Union occurs in a position of the opposite polarity ([snd_ok]). *)
+   Union occurs in a position of the opposite polarity ([snd_ok]) -- since 6dfdafd Union is as trustworthy as ElseIf. *)
 From Coq Require Import List ZArith Bool Arith Lia.
 From Krrood Require Import Eql.Syntax Eql.Sat Eql.Eval.
 Import ListNotations.
@@ -28,8 +28,7 @@ Qed.
 Fixpoint snd_ok (pol : bool) (c : cond) : bool :=
   match c with
   | CCmp _ _ _ => true
-  | CAnd l r | CElseIf l r => snd_ok pol l && snd_ok pol r
-  | CUnion l r => pol && snd_ok true l && snd_ok true r
+  | CAnd l r | CElseIf l r | CUnion l r => snd_ok pol l && snd_ok pol r
   | CNot c => snd_ok (negb pol) c
   | CExists _ _ | CForAll _ _ => false     (* quantifiers: not covered by the proofs yet; sampled against the Spec *)
   end.
@@ -40,8 +39,15 @@ Proof.
     try discriminate.
   - apply andb_prop in H as [Hl Hr]. rewrite (IHl _ Hl), (IHr _ Hr). reflexivity.
   - apply andb_prop in H as [Hl Hr]. rewrite (IHl _ Hl), (IHr _ Hr). reflexivity.
-  - apply andb_prop in H as [H Hr]. apply andb_prop in H as [_ Hl]. rewrite (IHl _ Hl), (IHr _ Hr). reflexivity.
+  - apply andb_prop in H as [Hl Hr]. rewrite (IHl _ Hl), (IHr _ Hr). reflexivity.
   - eauto.
+Qed.
+
+(* since 6dfdafd no logical operator is polarity-sensitive any more: for quantifier-free conditions [snd_ok] is [qfree] *)
+Lemma snd_ok_is_qfree c : forall pol, snd_ok pol c = qfree c.
+Proof.
+  induction c as [op l r|l IHl r IHr|l IHl r IHr|l IHl r IHr|c IH|e c IH|y c IH]; simpl; intros pol; auto;
+    try (now rewrite IHl, IHr).
 Qed.
 
 Lemma qfree_fv c : qfree c = true -> cond_fv c = cond_vars c.
@@ -161,7 +167,7 @@ Section Proofs.
     - apply in_flat_map in Hin as ([b1 f1] & H1 & H2). simpl in H2. destruct f1.
       + eauto.
       + destruct H2 as [[= <- <-]|[]]. eauto.
-    - apply in_app_or in Hin as [Hin|Hin]; [|eauto].
+    - apply in_app_or in Hin as [Hin|Hin]; [|apply filter_In in Hin as [Hin _]; eauto].
       apply in_flat_map in Hin as ([b1 f1] & H1 & H2). simpl in H2. destruct f1.
       + eauto.
       + destruct H2 as [[= <- <-]|[]]. eauto.
@@ -179,7 +185,7 @@ Section Proofs.
     - apply in_flat_map in Hin as ([b1 f1] & H1 & H2). simpl in H2. destruct f1.
       + eauto.
       + destruct H2 as [[= <- <-]|[]]. eauto.
-    - apply in_app_or in Hin as [Hin|Hin]; [|eauto].
+    - apply in_app_or in Hin as [Hin|Hin]; [|apply filter_In in Hin as [Hin _]; eauto].
       apply in_flat_map in Hin as ([b1 f1] & H1 & H2). simpl in H2. destruct f1.
       + eauto.
       + destruct H2 as [[= <- <-]|[]]. eauto.
@@ -212,12 +218,18 @@ Section Proofs.
           rewrite (IHl false _ _ Hl H1 rho (eval_mono r (snd_ok_qfree r _ Hr) _ _ _ H2 rho He)). reflexivity.
       + destruct H2 as [[= <- Hp]|[]]. destruct pol; [|discriminate].
         rewrite (IHl true _ _ Hl H1 rho He). reflexivity.
-    - apply andb_prop in Hok as [Hok Hr]. apply andb_prop in Hok as [-> Hl]. simpl in Hin.
+    - apply andb_prop in Hok as [Hl Hr].
       apply in_app_or in Hin as [Hin|Hin].
       + apply in_flat_map in Hin as ([b1 f1] & H1 & H2). simpl in H2. destruct f1.
-        * rewrite (IHr true _ _ Hr H2 rho He). apply orb_true_r.
-        * destruct H2 as [[= <- ]|[]]. rewrite (IHl true _ _ Hl H1 rho He). reflexivity.
-      + rewrite (IHr true _ _ Hr Hin rho He). apply orb_true_r.
+        * destruct pol.
+          -- rewrite (IHr true _ _ Hr H2 rho He). apply orb_true_r.
+          -- rewrite (IHr false _ _ Hr H2 rho He).
+             rewrite (IHl false _ _ Hl H1 rho (eval_mono r (snd_ok_qfree r _ Hr) _ _ _ H2 rho He)). reflexivity.
+        * destruct H2 as [[= <- Hp]|[]]. destruct pol; [|discriminate].
+          rewrite (IHl true _ _ Hl H1 rho He). reflexivity.
+      + (* second pass: only true results of the right operand *)
+        apply filter_In in Hin as [Hin Hf]. simpl in Hf. destruct pol; [|discriminate].
+        rewrite (IHr true _ _ Hr Hin rho He). apply orb_true_r.
     - apply in_map_iff in Hin as ([b1 f1] & [= <- Hf] & H1).
       assert (f1 = negb (negb pol)) by (destruct f1, pol; simpl in *; congruence). subst f1.
       rewrite (IH (negb pol) _ _ Hok H1 rho He). apply negb_involutive.
